@@ -92,6 +92,11 @@ def program(pv, d):
         {'n': 'cust', 'args': [['a', ['c', D, {'min_occurs': 1}]]], 'ret': ['c', D, {'nillable': False}]},
         {'n': 'seq', 'args': [['s', ['c', D, {'max_occurs': 'unbounded'}]]], 'ret': I},
     ]
+    # methods whose declared type is a proper descendant of D: called once before the cases ("warm-up" histories) so
+    # that whatever a protocol instance caches for a subclass exists before the subclass travels under its base
+    for j in descendants(pv, d):
+        if j != d:
+            ms.append({'n': 'warm%d' % j, 'args': [['a', ['c', 'C%d' % j, {}]]], 'ret': ['c', 'C%d' % j, {}]})
     return {'tns': TNS, 'classes': classes, 'services': [{'n': 'S', 'methods': ms}]}
 
 
@@ -170,13 +175,26 @@ def run_shard(shard, only=None):
     descs = ['C%d' % j for j in descendants(pv, d)]
     fam = 'xml' if proto in XML else 'dict'
     tree_id = ''.join('-' if p is None else str(p) for p in pv)
-    for poly in (True, False):
+    warms = [None] + [x for x in descs if x != D]
+    for poly, warm in itertools.product((True, False), warms):
         if fam == 'xml':
             h = harness.XmlHarness(prog, proto, None, in_kw={'polymorphic': poly}, out_kw={'polymorphic': poly})
         else:
             h = harness.DictHarness(prog, proto, None, ignore_wrappers=False, polymorphic=poly)
         res['cov']['programs'] += 1
         b = h.b
+        if warm is not None:
+            # history: a call whose declared type is the subclass itself comes first on these protocol instances
+            wm = b.methods['warm' + warm[1:]]
+            wv = instance(b.flat_fields, warm, 9)
+            try:
+                wreq = xsdcodec.build_request(h.codec, wm, [wv], proto) if fam == 'xml' else h.codec.request_bytes(wm, [wv])
+                wo = h.call_raw(wm['n'], wreq, wv)
+                if wo.escaped is not None or wo.fault is not None:
+                    raise RuntimeError('warm-up call failed: %r %r' % (wo.escaped, wo.fault))
+            except (xsdcodec.SchemaError, xsdcodec.NotDenotable):
+                continue
+            res['cov']['warm_up_histories'] = res['cov'].get('warm_up_histories', 0) + 1
         client = None
         if fam == 'xml':
             capp = spec.make_app(b, harness.make_proto(proto, polymorphic=poly), harness.make_proto(proto, polymorphic=poly))
@@ -199,11 +217,11 @@ def run_shard(shard, only=None):
             cases.append(('arr', 'arr', [l], l, R1 + '+' + R2))
         for pos, mname, args, ret, rlabel in cases:
             m = b.methods[mname]
-            key = [poly, pos, rlabel]
-            if only is not None and only[:3] != key:
+            key = [poly, pos, rlabel, warm]
+            if only is not None and (only[:3] != key[:3] or (len(only) > 3 and only[3] != warm)):
                 continue
             substituted = rlabel.replace('+', '') != D and any(x != D for x in rlabel.split('+'))
-            sitebase = '%s|poly=%s|%s|%s' % (proto, 'on' if poly else 'off', pos, 'subclass' if substituted else 'same')
+            sitebase = '%s|poly=%s|%s|%s%s' % (proto, 'on' if poly else 'off', pos, 'subclass' if substituted else 'same', '|after-subclass-call' if warm else '')
             casedoc = {'shard': shard, 'only': key}
 
             def V(kind, detail, what, route='server'):
